@@ -6,13 +6,13 @@
    leave behind (SessionTimeline.exec_hist).
 
    Space (decided on the state by SessionProgress.op_ok; srun_in = srun that answers Err at the first
-   operation outside it): rollback mode (max_prediction >= 1), dense saving, no spectators, nobody
-   disconnects; local players with a common input delay d, max_prediction + d + 3 <= INPUT_QUEUE_LENGTH;
+   operation outside it): rollback mode (max_prediction >= 1), sparse saving on or off (the theorems
+   quantify over the flag), any number of spectators, nobody disconnects; local players with a common input delay d, max_prediction + d + 3 <= INPUT_QUEUE_LENGTH;
    remote players' inputs arrive in frame order while their ring has room (what the endpoint delivers:
    props/C05.v, C11.v); add_local_input / advance_frame / arriving inputs / gossip in ANY interleaving.
    Predictors: any function with predict (predict x) = predict x and predict 0 = 0 - both shipped
    predictors (C01_predictors_qualify); see DESIGN.md for what happens without idempotence. *)
-From GGRS Require Import Base Consts Queue QueueProofs Sync P2P Session SessionProofs SessionProgress SessionTimeline.
+From GGRS Require Import Base Consts Queue QueueProofs Sync P2P Session SessionProofs SessionSparse SessionProgress SessionSparse2 SessionTimeline SessionTimelineSparse.
 Open Scope Z_scope.
 
 (* After ANY run inside the space, however predictions, mispredictions, rollbacks, stalls at the
@@ -24,14 +24,18 @@ Open Scope Z_scope.
    replay of the held inputs, whatever was predicted on the way. *)
 Theorem C01_confirmed_frames_use_held_inputs :
   forall (predict : Z -> Z), (forall x, predict (predict x) = predict x) -> predict 0 = 0 ->
-  forall (ops : list sop) (n w d : Z) (kinds : list pkind) (eps : list (list Z)) (nspec : nat) (p : p2p) (outs : list (pout * apires)),
+  forall (sparse : bool) (ops : list sop) (n w d : Z) (kinds : list pkind) (eps : list (list Z)) (nspec : nat) (p : p2p) (outs : list (pout * apires)),
   1 <= w -> 0 <= d -> w + d + 3 <= INPUT_QUEUE_LENGTH -> 0 < n -> Z.of_nat (length kinds) = n -> players_only kinds ->
-  srun_in predict (session_start n w false d kinds eps nspec) ops = Ok (p, outs) ->
-  exists g gs, exec_outs w (game0 w) outs = Some g /\ QS w d p gs /\ gframe g = s_current (ps_sync p) /\
+  srun_in predict (session_start n w sparse d kinds eps nspec) ops = Ok (p, outs) ->
+  exists g gs, exec_outs w (game0 w) outs = Some g /\ QSg sparse w d p gs /\ gframe g = s_current (ps_sync p) /\
     forall h hist low f, nth_error gs h = Some (hist, low) ->
       0 <= f <= s_last_confirmed (ps_sync p) -> f < s_current (ps_sync p) ->
       f < hlen hist /\ gvalL (g_hist g) f h = hval hist f.
-Proof. exact confirmed_frames_use_held_inputs. Qed.
+Proof.
+  intros predict Hi Hz [|].
+  - exact (sparse_confirmed_frames_use_held_inputs predict Hi Hz).
+  - exact (confirmed_frames_use_held_inputs predict Hi Hz).
+Qed.
 
 (* Remote players in closed form: every confirmed frame f that has been simulated was LAST simulated,
    for every remote player pl, with the f-th input delivered for pl during the run ([remote_vals pl ops]:
@@ -39,14 +43,18 @@ Proof. exact confirmed_frames_use_held_inputs. Qed.
    or replaced by a prediction that was never corrected. *)
 Theorem C01_confirmed_frames_use_delivered_inputs :
   forall (predict : Z -> Z), (forall x, predict (predict x) = predict x) -> predict 0 = 0 ->
-  forall (ops : list sop) (n w d : Z) (kinds : list pkind) (eps : list (list Z)) (nspec : nat) (p : p2p) (outs : list (pout * apires)),
+  forall (sparse : bool) (ops : list sop) (n w d : Z) (kinds : list pkind) (eps : list (list Z)) (nspec : nat) (p : p2p) (outs : list (pout * apires)),
   1 <= w -> 0 <= d -> w + d + 3 <= INPUT_QUEUE_LENGTH -> 0 < n -> Z.of_nat (length kinds) = n -> players_only kinds ->
-  srun_in predict (session_start n w false d kinds eps nspec) ops = Ok (p, outs) ->
+  srun_in predict (session_start n w sparse d kinds eps nspec) ops = Ok (p, outs) ->
   exists g, exec_outs w (game0 w) outs = Some g /\ gframe g = s_current (ps_sync p) /\
     forall pl e f, 0 <= pl -> nth_error kinds (Z.to_nat pl) = Some (KRemote e) ->
       0 <= f <= s_last_confirmed (ps_sync p) -> f < s_current (ps_sync p) ->
       f < hlen (remote_vals pl ops) /\ gvalL (g_hist g) f (Z.to_nat pl) = hval (remote_vals pl ops) f.
-Proof. exact confirmed_frames_use_delivered_inputs. Qed.
+Proof.
+  intros predict Hi Hz [|].
+  - exact (sparse_confirmed_frames_use_delivered_inputs predict Hi Hz).
+  - exact (confirmed_frames_use_delivered_inputs predict Hi Hz).
+Qed.
 
 (* Local players, call by call (the invariants QS, JI, TI hold in every reachable state -
    SessionTimeline.run_timeline): an operation inside the space succeeds, re-establishes the invariants
@@ -63,6 +71,25 @@ Theorem C01_held_inputs_step :
   exists s gs' g', sstep predict p o = Ok s /\ QS w d (sr_state s) gs' /\ JI w (sr_state s) g' /\
     TI predict (sr_state s) gs' (g_hist g') /\ op_hist d p o gs gs'.
 Proof. exact held_inputs_step. Qed.
+
+(* the same step theorem for sparse saving; the cells invariant there is CIs = JS (the cell of
+   last_saved_frame holds that frame's state) with SXs (last confirmed <= last_saved <= current, last_saved
+   not beyond what is held of any player, no misprediction flagged below it) *)
+Theorem C01_held_inputs_step_sparse :
+  forall (predict : Z -> Z), (forall x, predict (predict x) = predict x) -> predict 0 = 0 ->
+  forall (p : p2p) (gs : list ghost) (g : game) (w d : Z) (o : sop),
+  QSg true w d p gs -> CIs w p g -> TI predict p gs (g_hist g) -> op_ok p o = true ->
+  exists s gs' g', sstep predict p o = Ok s /\ QSg true w d (sr_state s) gs' /\ CIs w (sr_state s) g' /\
+    TI predict (sr_state s) gs' (g_hist g') /\ op_hist d p o gs gs'.
+Proof. exact sparse_held_inputs_step. Qed.
+
+(* non-vacuity for sparse saving: the demo run below with sparse saving on *)
+Example C01_demo_sparse :
+  exists p outs g, srun_in (fun x => x) (session_start 2 2 true 0 [KLocal; KRemote 0] [[1]] 0)
+                     [SLocal 0 1; SAdvance; SLocal 0 1; SAdvance; SRemote 1 0 7; SRemote 1 1 7; SLocal 0 2; SAdvance] = Ok (p, outs) /\
+    exec_outs 2 (game0 2) outs = Some g /\ s_last_confirmed (ps_sync p) = 1 /\
+    map (fun f => (gvalL (g_hist g) f 0, gvalL (g_hist g) f 1)) [0; 1; 2] = [(1, 7); (1, 7); (2, 7)].
+Proof. eexists. eexists. eexists. split; [vm_compute; reflexivity|]. split; [vm_compute; reflexivity|]. split; vm_compute; reflexivity. Qed.
 
 (* the two predictors ggrs ships: PredictRepeatLast and PredictDefault (default input = 0 in the model) *)
 Example C01_predictors_qualify :
